@@ -2,7 +2,7 @@
    Property theorems only; each closed by [exact] of a lemma proved in proofs/.
    All statements are for ALL strings, ALL positions in Z and ALL option sets.
 
-   Reading guide (proofs/HtmlActionsProofs.v, HtmlC16Proofs.v, HtmlScanProofs.v):
+   Reading guide (proofs/HtmlActionsProofs.v, HtmlC16Proofs.v, HtmlScanProofs.v, HtmlSelectFull.v):
      tag_range_wf code closing name r   r runs from `<` to `>` inside code, name right after `<` / `</`
      attrs_sorted code lo hi l          tokens inside [lo, hi], in order, disjoint, and the name / value
                                         strings are exactly the slices of CODE at the reported ranges
@@ -10,17 +10,39 @@
      tok_in lo hi r                     lo <= fst r < snd r <= hi
      next_pred pos e / prev_pred pos e  open or self-closing tag with end > pos / start < pos
      select_target                      next: the FIRST tag with next_pred; previous: the LAST tag with prev_pred
+     tag_sel code e                     THE SPEC of the selection model of tag event e (HtmlSelectFull.v, 40 lines):
+                                        start, end, and the range list
+                                          tag name :: squash (for each attribute token of get_attributes, in order:
+                                            [name start, value end)   -- or [name start, name end) without value --
+                                            unquoted value            (strip: one leading quote and the same quote at
+                                                                       the end, or one `{`..`}` pair, left out)
+                                            for `class`: words (unquoted value))
+                                        squash = what push_range keeps: no empty range, no range equal to the one
+                                        just before it (the value of class="a" and its only word)
+     words s off                        ranges of the maximal runs of non-space characters of s (C17_html_words_spec
+                                        and C17_html_words_unique pin this down independently of the recursion)
 
-   Proved for the ranges of select_item_html: the model spans the selected tag, the first range
-   is the tag name, every range is non-empty and lies inside the tag after `<`; value_range never
-   raises.  NOT proved as a theorem (covered by the ground-truth oracle on generated documents and
-   by correspondence): that the range LIST is exactly name, then per attribute [name..value end),
-   unquoted value, class tokens -- this is the definition of selection_ranges in model/HtmlActions.v,
-   tied to the code by correspondence; and that token_list yields exactly the maximal runs of
-   non-space characters (checked directly against an independent word splitter on every run). *)
+   C17_html_select_ranges is the full statement for select_item_html: an equation between the model and the
+   spec, for every string, position, direction and option set.  The attribute tokens inside the spec are those of
+   get_attributes; C17_html_get_open_tag says they slice the source to names and values as written
+   (attrs_sorted).
+
+   ON TEXT (C17_html_select_text, C17_html_get_open_tag_text; proofs/HtmlSelectText.v): for every document d of the
+   C09 level-B grammar (proofs/HtmlRender.v, HtmlRenderScan.v: item, dattr, aname, aval, render, item_ok) the helpers
+   run on the string `render d` return the tags of the document's own record:
+     tags_of d                          the open / self-closing tags of d with their offsets, in document order
+     select_tag pos is_prev tags        next: first tag that ends after pos; previous: last tag that starts before pos
+     tag_items t                        (range, text) pairs computed from the attributes AS WRITTEN: tag name; per
+                                        attribute [name start, value end) -> `name=value`, the unquoted value -> the body
+                                        between the quotes / braces, for class the words of the body
+     written_model t                    start, end, tag name :: squash (ranges of the attribute items)
+     sliced src (r, txt)                src[r] = txt
+     ctx_of_tag t / tag_tokens t        the ContextTag with the attribute tokens of the record (attr_tokens: names and
+                                        values as written at their exact document offsets -- shifted exactly once) *)
 From Coq Require Import List NArith ZArith.
 From Emmet Require Import lib.Base gen.GenHtml model.HtmlScan model.HtmlMatch model.HtmlActions
-  proofs.HtmlScanProofs proofs.HtmlFoldProofs proofs.HtmlC16Proofs proofs.HtmlActionsProofs.
+  proofs.HtmlScanProofs proofs.HtmlFoldProofs proofs.HtmlC16Proofs proofs.HtmlActionsProofs proofs.HtmlSelectFull
+  proofs.HtmlRender proofs.HtmlRenderScan proofs.HtmlRenderCompose proofs.HtmlSelectText.
 Import ListNotations.
 Local Open Scope Z_scope.
 
@@ -59,6 +81,22 @@ Theorem C17_html_get_open_tag :
 Proof. exact get_open_tag_wf. Qed.
 Print Assumptions C17_html_get_open_tag.
 
+(* get_open_tag as an equation, on every string and over every ordered event list: the (first = only) tag event
+   strictly containing the position, as ContextTag; open and self-closing tags with the tokens of get_attributes *)
+Theorem C17_html_get_open_tag_eq :
+  forall (code : str) (pos : Z),
+    get_open_tag code pos =
+    Ok (option_map (ctx_of_event code) (find (hits pos) (fst (scan (o_special default_opts) code)))).
+Proof. exact get_open_tag_eq. Qed.
+Print Assumptions C17_html_get_open_tag_eq.
+
+Theorem C17_html_get_open_tag_events :
+  forall (code : str) (evs : list event) (lo : N) (pos : Z),
+    events_ordered lo evs ->
+    get_open_tag_of code (evs, None) pos = Ok (option_map (ctx_of_event code) (find (hits pos) evs)).
+Proof. exact get_open_tag_of_eq. Qed.
+Print Assumptions C17_html_get_open_tag_events.
+
 (* next / previous chosen by the stated comparison, over ALL (ordered) event lists *)
 Theorem C17_html_next_item :
   forall (pos : Z) (evs : list event), next_item_go pos evs = find (next_pred pos) evs.
@@ -73,8 +111,8 @@ Theorem C17_html_previous_item :
 Proof. exact prev_item_go_spec. Qed.
 Print Assumptions C17_html_previous_item.
 
-(* select_html_ranges on every string *)
-Theorem C17_html_select_item_partial :
+(* select_html_ranges on every string: bounds (kept; the equation below is the full statement) *)
+Theorem C17_html_select_item :
   forall (o : opts) (code : str) (pos : Z) (is_prev : bool),
     exists r, select_item_html o code pos is_prev = Ok r /\
       match select_target pos is_prev (fst (scan (o_special o) code)) with
@@ -87,7 +125,56 @@ Theorem C17_html_select_item_partial :
             Forall (tok_in (Z.of_N (ev_start e) + 1) (Z.of_N (ev_end e))) (sel_ranges m)
       end.
 Proof. exact select_item_html_wf. Qed.
-Print Assumptions C17_html_select_item_partial.
+Print Assumptions C17_html_select_item.
+
+(* THE FULL STATEMENT: the selection model is exactly the spec [tag_sel] of the selected tag *)
+Theorem C17_html_select_ranges :
+  forall (o : opts) (code : str) (pos : Z) (is_prev : bool),
+    select_item_html o code pos is_prev =
+    Ok (option_map (tag_sel code) (select_target pos is_prev (fst (scan (o_special o) code)))).
+Proof. exact select_item_html_eq. Qed.
+Print Assumptions C17_html_select_ranges.
+
+(* ... over ALL ordered event lists, not only scanner outputs *)
+Theorem C17_html_select_ranges_events :
+  forall (code : str) (evs : list event) (lo : N) (pos : Z) (is_prev : bool),
+    events_ordered lo evs ->
+    select_item_html_of code (evs, None) pos is_prev = Ok (option_map (tag_sel code) (select_target pos is_prev evs)).
+Proof. exact select_item_html_of_eq. Qed.
+Print Assumptions C17_html_select_ranges_events.
+
+(* ... and the loop of get_tag_selection_model over ALL attribute token lists whose values are
+   non-empty slices of the tag source: one push_range per spec entry, in order *)
+Theorem C17_html_selection_loop :
+  forall (tag_src : str) (st : Z) (attrs : list attr) (ranges : list range),
+    Forall (tok_ok tag_src) attrs ->
+    selection_ranges tag_src st attrs ranges = Ok (fold_left push_range (flat_map (attr_ranges st) attrs) ranges).
+Proof. exact selection_ranges_eq. Qed.
+Print Assumptions C17_html_selection_loop.
+
+Theorem C17_html_push_range_squash :
+  forall (l ranges : list range), fold_left push_range l ranges = ranges ++ squash (last_range ranges) l.
+Proof. exact fold_push_squash. Qed.
+Print Assumptions C17_html_push_range_squash.
+
+(* class tokens: token_list is [words], and [words] is the list of maximal non-space runs *)
+Theorem C17_html_token_list_words : forall (v : str) (off : Z), token_list v off = words v off.
+Proof. exact token_list_words. Qed.
+Print Assumptions C17_html_token_list_words.
+
+Theorem C17_html_words_spec :
+  forall (s : str) (off : Z),
+    separated off (words s off) /\
+    Forall (fun r => snd r <= off + Z.of_nat (length s)) (words s off) /\
+    forall i c, nth_error s i = Some c -> (covers (words s off) (off + Z.of_nat i) <-> is_space c = false).
+Proof. exact words_spec. Qed.
+Print Assumptions C17_html_words_spec.
+
+Theorem C17_html_words_unique :
+  forall (l1 l2 : list range) (lo : Z),
+    separated lo l1 -> separated lo l2 -> (forall i, covers l1 i <-> covers l2 i) -> l1 = l2.
+Proof. exact separated_covers_unique. Qed.
+Print Assumptions C17_html_words_unique.
 
 (* class tokens lie inside the value they were split from *)
 Theorem C17_html_token_list_bounds :
@@ -102,3 +189,65 @@ Example C17_html_nonvacuous :
   exists m, select_item_html default_opts s 0 false = Ok (Some m) /\
     sel_ranges m = [(1, 3); (4, 23); (11, 22); (11, 15); (16, 22)].
 Proof. eexists. vm_compute. split; reflexivity. Qed.
+
+(* the spec on the same tag: the value range and the only class token coincide for class="item" and are
+   reported once (squash); an empty value yields no value range *)
+Example C17_html_spec_nonvacuous :
+  let s := [60;97;32;99;108;97;115;115;61;34;120;34;32;98;61;34;34;32;99;62]%N in   (* <a class="x" b="" c> *)
+  let e := mkEv [97]%N EOpen 0 20 in
+  select_target 0 false (fst (scan (o_special default_opts) s)) = Some e /\
+  sel_ranges (tag_sel s e) = [(1, 2); (3, 12); (10, 11); (13, 17); (18, 19)].
+Proof. vm_compute. split; reflexivity. Qed.
+
+(* ================================================================== on TEXT *)
+(* select_item_html on the text of any document of the grammar, any position, both directions: the next / previous
+   tag of the record with the ranges computed from the WRITTEN attributes; every item of every tag slices the
+   text to exactly its part, and all ranges lie inside the tag *)
+Theorem C17_html_select_text :
+  forall (o : opts) (d : list item) (pos : Z) (is_prev : bool),
+    forallb (item_ok (o_special o)) d = true ->
+    select_item_html o (render d) pos is_prev = Ok (option_map written_model (select_tag pos is_prev (tags_of d))) /\
+    forall t, In t (tags_of d) ->
+      Forall (sliced (render d)) (tag_items t) /\
+      Forall (tok_in (Z.of_N (tr_start t) + 1) (Z.of_N (tr_end t))) (written_ranges t).
+Proof. exact select_text. Qed.
+Print Assumptions C17_html_select_text.
+
+(* get_open_tag on the text: exactly the open / self-closing tag of the record strictly containing the position,
+   with the attribute tokens of the record, which slice the text to the names and values as written *)
+Theorem C17_html_get_open_tag_text :
+  forall (d : list item) (pos : Z),
+    forallb (item_ok (o_special default_opts)) d = true ->
+    (forall t, In t (tags_of d) -> Z.of_N (tr_start t) < pos -> pos < Z.of_N (tr_end t) ->
+       get_open_tag (render d) pos = Ok (Some (ctx_of_tag t))) /\
+    (forall c, get_open_tag (render d) pos = Ok (Some c) -> ct_type c <> EClose ->
+       exists t, In t (tags_of d) /\ Z.of_N (tr_start t) < pos /\ pos < Z.of_N (tr_end t) /\ c = ctx_of_tag t) /\
+    (forall t, In t (tags_of d) ->
+       Forall (token_slices (render d)) (tag_tokens t) /\
+       attrs_sorted (render d) (tr_start t) (tr_end t) (tag_tokens t)).
+Proof. exact get_open_tag_text. Qed.
+Print Assumptions C17_html_get_open_tag_text.
+
+(* the written items are the ranges of the model before squash (definitional) *)
+Theorem C17_html_written_ranges :
+  forall t, written_ranges t =
+    name_range (tr_start t) (tr_name t) ::
+    squash (Some (name_range (tr_start t) (tr_name t))) (map fst (tl (tag_items t))).
+Proof. exact written_ranges_items. Qed.
+Print Assumptions C17_html_written_ranges.
+
+(* non-vacuity on text: d = <p class="a b" id=x k={v}>t</p><br/> is a document of the grammar; at position 30
+   (inside `</p>`) next selects <br/>, previous selects <p ...> with name, class
+   attribute, its unquoted value, both class tokens, id attribute, its value, k attribute and the inside of {v} *)
+Example C17_html_text_nonvacuous :
+  let cls := [99;108;97;115;115]%N in
+  let d := [IPaired [112]%N
+              [mkDAttr [32]%N (NIdent cls) (VQuoted 34%N [97;32;98]%N);
+               mkDAttr [32]%N (NIdent [105;100]%N) (VUnquoted [120]%N);
+               mkDAttr [32]%N (NIdent [107]%N) (VExpr [EChar 118%N])] [] [IText [116]%N];
+            ISelf [98;114]%N [] []] in
+  forallb (item_ok (o_special default_opts)) d = true /\
+  option_map written_model (select_tag 30 false (tags_of d)) = Some (mkSel 31 36 [(32, 34)]) /\
+  option_map written_model (select_tag 30 true (tags_of d)) =
+    Some (mkSel 0 26 [(1, 2); (3, 14); (10, 13); (10, 11); (12, 13); (15, 19); (18, 19); (20, 25); (23, 24)]).
+Proof. vm_compute. repeat split; reflexivity. Qed.
